@@ -1,11 +1,13 @@
 """Source tie of C15 (Pickle block): a fail-closed, syntax-directed translator from the Python text of
 
     deepdiff/serialization.py :  SAFE_TO_IMPORT, MODULE_NOT_FOUND_MSG / FORBIDDEN_MODULE_MSG (when used),
-                                 _RestrictedUnpickler.__init__ / find_class / persistent_load, pickle_load
+                                 _RestrictedUnpickler.__init__ / find_class / persistent_load, pickle_load,
+                                 _RestrictedPickler.persistent_id
     deepdiff/helper.py        :  strings  (only to resolve `isinstance(x, strings)`)
 
 to Gallina definitions over the vocabulary of coq/theories/Pickle/SrcPrims.v:
 
+    g_persistent_id  (obj : obj) : option pystr                            (_RestrictedPickler.persistent_id)
     g_SAFE_TO_IMPORT_names : list string      g_SAFE_TO_IMPORT : pyv
     g_init_allow     (kwargs_safe_to_import : option pyv) : pyv            (= self.safe_to_import after __init__)
     g_find_class     (sys_modules : process) (self_safe_to_import : pyv) (module name : pystr) : res gkind
@@ -421,6 +423,20 @@ class Fn:
             if isinstance(op, (ast.In, ast.NotIn)) and d == "pyv":
                 t = "(py_in %s %s)" % (self.pure(n.left, "str"), self.pure(right, "pyv"))
                 return (t if isinstance(op, ast.In) else "(negb %s)" % t), "bool", False
+            if isinstance(op, (ast.Is, ast.IsNot)) and d == "obj":
+                l, lt, le = self.expr(n.left)
+                r, rt, re_ = self.expr(right)
+                if le or re_ or lt != "obj" or rt != "obj":
+                    self.bad(n, "`is` between %s and %s" % (lt, rt))
+                if r == "ONoneType":
+                    t = "(obj_is_nonetype %s)" % l
+                elif l == "ONoneType":
+                    t = "(obj_is_nonetype %s)" % r
+                elif r == "ONone":
+                    t = "(obj_is_none %s)" % l
+                else:
+                    self.bad(n, "`is` against something other than NONE_TYPE / type(None) / None")
+                return (t if isinstance(op, ast.Is) else "(negb %s)" % t), "bool", False
             if isinstance(op, (ast.Eq, ast.NotEq)) and d == "obj":
                 l, lt, le = self.expr(n.left)
                 r, rt, re_ = self.expr(right)
@@ -582,6 +598,8 @@ class Fn:
     def ret(self, node, text, ty, eff):
         if not self.ret_types(ty):
             self.bad(node, "returns a %s" % ty)
+        if getattr(self, "wrap", None):
+            return self.wrap(text, ty)
         if eff:
             if not self.monadic:
                 self.bad(node, "effect in a function translated as pure")
@@ -859,6 +877,37 @@ class Translator:
                 "Definition g_pickle_load (e : env) (content file_obj safe_to_import : pyv) : res result :="] + body
         out[-1] += "."
 
+        # --- _RestrictedPickler.persistent_id ---
+        pk = [n for n in self.tree.body if isinstance(n, ast.ClassDef) and n.name == "_RestrictedPickler"]
+        if len(pk) != 1 or len([1 for nm, _n in _bound_names(self.tree) if nm == "_RestrictedPickler"]) != 1:
+            bad(SER, (pk or self.tree.body)[0], "_RestrictedPickler is not defined exactly once")
+        pk = pk[0]
+        b = pk.bases
+        if pk.decorator_list or pk.keywords or not (len(b) == 1 and isinstance(b[0], ast.Attribute) and isinstance(b[0].value, ast.Name)
+                                                      and b[0].value.id == "pickle" and b[0].attr == "Pickler"):
+            bad(SER, pk, "_RestrictedPickler does not subclass exactly pickle.Pickler")
+        body = [s for s in pk.body if not (isinstance(s, ast.Expr) and isinstance(s.value, ast.Constant) and isinstance(s.value.value, str))]
+        if len(body) != 1 or not isinstance(body[0], ast.FunctionDef) or body[0].name != "persistent_id":
+            bad(SER, pk, "_RestrictedPickler defines something besides persistent_id (reducer_override / dispatch_table / "
+                         "__reduce__ hooks would change what is written)")
+        self.checks.append("_RestrictedPickler subclasses exactly pickle.Pickler and its body is exactly the method persistent_id")
+        f = body[0]
+        self.params(f, "_RestrictedPickler.persistent_id", ["self", "obj"])
+        fn = Fn(self, f, "_RestrictedPickler.persistent_id", "obj", False, {"obj": "obj"},
+                lambda ty: ty in ("str", "obj"), lambda fn_, s: "None")
+
+        def wrap(text, ty):
+            if ty == "str":
+                return "Some %s" % text
+            if text == "ONone":
+                return "None"
+            fn.bad(f, "persistent_id returns an object other than a str literal / None")
+        fn.wrap = wrap
+        body = fn.seq(f.body, lambda ind: ["  " * ind + "None (* falls off the end: returns None = no persistent id *)"], 1)
+        out += ["", "(* _RestrictedPickler.persistent_id(self, obj): Some pid = the object is written as the persistent id pid *)",
+                "Definition g_persistent_id (obj : obj) : option pystr :="] + body
+        out[-1] += "."
+
         consts = []
         for name in self.used_consts:
             consts.append("Definition g_%s : pystr := s2p %s." % (name, coq_str(SER, self.tree.body[0], self.str_consts[name])))
@@ -870,7 +919,8 @@ class Translator:
         for rule in ("comment", "self"):
             skipped.append("%s: %s" % (rule, SKIP_RULES[rule]))
         head = ["(* GENERATED by harness/translate/unpickler.py from deepdiff/serialization.py (SAFE_TO_IMPORT,",
-                "   _RestrictedUnpickler.__init__ / find_class / persistent_load, pickle_load) and deepdiff/helper.py (strings = (%s))."
+                "   _RestrictedUnpickler.__init__ / find_class / persistent_load, pickle_load, _RestrictedPickler.persistent_id)",
+                "   and deepdiff/helper.py (strings = (%s))."
                 % ", ".join(self.strings),
                 "   Do not edit: regenerated from the current source on every run of ./check C15.",
                 "",
